@@ -104,7 +104,7 @@ def sameShape (n K : Nat) (M : Mat) : Bool := M.length == n && M.all (fun r => r
 
 def scaleMat (d : Rat) (M : Mat) : Mat := M.map (fun r => r.map (· / d))
 
-/-- `np.sum(y_probas, axis=0) / (np.ones(self.n_classes) * self.n_estimators)` (TSF, STSF) and
+/-- `np.sum(y_probas, axis=0) / (np.ones(self.n_classes) * self.n_estimators)` (TSF; STSF after `stsfAlign`) and
 `np.sum(all_proba, axis=0) / self.n_estimators` (RISE); `y_probas` has one matrix per fitted
 estimator (`range(self.n_estimators)`), `n_classes = len(np.unique(y))`.  Members whose shapes
 differ (a member that saw fewer classes) make numpy raise; members that ALL have a single column
